@@ -12,6 +12,7 @@ var verifHarnesses = map[string]func(a []int){
 	"H_C03":            func(a []int) { H_C03(a[0], a[1], a[2]) },
 	"H_C17":            func(a []int) { H_C17(a[0], a[1]) },
 	"H_C08":            func(a []int) { H_C08(a[0]) },
+	"H_C08_two":        func(a []int) { H_C08_two(a[0]) },
 	"H_C12":            func(a []int) { H_C12(a[0], a[1], a[2], a[3]) },
 	"H_C13_conc":       func(a []int) { H_C13_conc(a[0], a[1], a[2], a[3]) },
 	"H_C13_read":       func(a []int) { H_C13_read(a[0], a[1]) },
